@@ -31,7 +31,14 @@ assert os.path.exists(patch), patch
 assert demos, "no demo"
 demo = demos[0]
 res = {"property": prop, "index": idx, "patch": patch, "demo": demo}
+CONFIRM = ("applies", "demo_with_patch_fails", "demo_with_patch_tail", "suite_with_patch_passes", "suite_tail",
+           "demo_without_patch_passes", "demo_without_patch_tail")
+if skip_confirm and os.path.exists(f"{out_dir}/eval{idx}.json"):
+    # a detection re-run keeps what the confirmation established earlier
+    old = json.load(open(f"{out_dir}/eval{idx}.json"))
+    res.update({k: old[k] for k in CONFIRM if k in old})
 
+PKG = "biscuit-capi" if prop == "C19" else "biscuit-auth"
 SCR = "/tmp/scr"
 WT = f"{SCR}/wt"
 TGT = {"CARGO_TARGET_DIR": f"{SCR}/target"}
@@ -47,18 +54,18 @@ if not skip_confirm:
     if rc != 0:
         res["apply_output"] = o[-2000:]
     else:
-        shutil.copy(demo, f"{WT}/biscuit-auth/tests/seed_demo.rs")
-        rc, o = sh("cargo test -p biscuit-auth --offline --test seed_demo 2>&1 | tail -40", cwd=WT, env=TGT)
-        res["demo_with_patch_fails"] = ("test result: FAILED" in o) or ("error: test failed" in o)
+        os.makedirs(f"{WT}/{PKG}/tests", exist_ok=True); shutil.copy(demo, f"{WT}/{PKG}/tests/seed_demo.rs")
+        rc, o = sh(f"cargo test -p {PKG} --offline --test seed_demo 2>&1 | tail -40", cwd=WT, env=TGT)
+        res["demo_with_patch_fails"] = ("test result: FAILED" in o) or ("error: test failed" in o) or ("signal: 6" in o)
         res["demo_with_patch_tail"] = o[-1500:]
         # the existing suite with the patch (flaky 1 ms tests: up to 3 attempts per failing test)
-        os.remove(f"{WT}/biscuit-auth/tests/seed_demo.rs")
+        os.remove(f"{WT}/{PKG}/tests/seed_demo.rs")
         rc, o = sh("cargo nextest run --workspace --no-fail-fast --offline --retries 3 2>&1 | tail -15", cwd=WT, env=TGT)
         res["suite_with_patch_passes"] = rc == 0
         res["suite_tail"] = o[-1200:]
         sh("git checkout -- . && git clean -fdq", cwd=WT)
-        shutil.copy(demo, f"{WT}/biscuit-auth/tests/seed_demo.rs")
-        rc, o = sh("cargo test -p biscuit-auth --offline --test seed_demo 2>&1 | tail -15", cwd=WT, env=TGT)
+        os.makedirs(f"{WT}/{PKG}/tests", exist_ok=True); shutil.copy(demo, f"{WT}/{PKG}/tests/seed_demo.rs")
+        rc, o = sh(f"cargo test -p {PKG} --offline --test seed_demo 2>&1 | tail -15", cwd=WT, env=TGT)
         res["demo_without_patch_passes"] = rc == 0 and "test result: ok" in o
         res["demo_without_patch_tail"] = o[-800:]
         sh("git checkout -- . && git clean -fdq", cwd=WT)
